@@ -44,7 +44,7 @@ static struct {
 	int notified;
 	int ret[RT_MAXT];
 	int refs;
-	nsync_atomic_uint32_ *nwrec[RT_MAXT];
+	nsync_atomic_uint32_ *nwrec[RT_MAXT]; int nwlive[RT_MAXT];
 	int sleeps[RT_MAXT], inlock[RT_MAXT];
 	int mu_freed; uint32_t word_at_free;
 	int done_ops[RT_MAXT];
@@ -176,8 +176,9 @@ static void client (void *arg) {
 			} else ip++;
 			wa.v = S.cv; wa.funcs = &nsync_cv_waitable_funcs;
 			rt_dead_clear (t);
-			S.picked[t] = 0;
+			S.picked[t] = 0; S.nwrec[t] = NULL; S.nwlive[t] = 1;
 			r = nsync_wait_n (S.mu, v_lock, v_unlock, deadline (o->dl), 1, &pwa);
+			S.nwlive[t] = 0;
 			if (S.picked[t] && r != 0) rt_violation ("O-ret", "an nsync_wait_n on a cv that a signal/broadcast had unlinked (consumed wake-up) returned count (timeout) instead of 0");
 			if (S.nwrec[t]) rt_dead_mark ((char *) S.nwrec[t] - offsetof (struct nsync_waiter_s, waiting), sizeof (struct nsync_waiter_s), t, "nsync_wait_n record");
 			S.ret[t] = r;
@@ -315,7 +316,7 @@ static void obs (char *buf, size_t n) {
 	PUTARR ("mw", waiter_id ((waiter *) rt_tls_waiter (i)));
 	PUTARR ("waiting", i < nwtab ? *(volatile uint32_t *) &wtab[i]->nw.waiting : 0);
 	PUTARR ("rmc", i < nwtab ? *(volatile uint32_t *) &wtab[i]->remove_count : 0);
-	PUTARR ("nww", S.nwrec[i] ? *(volatile uint32_t *) S.nwrec[i] : 0);
+	PUTARR ("nww", (S.nwrec[i] && S.nwlive[i]) ? *(volatile uint32_t *) S.nwrec[i] : 0);     /* the record exists only while its nsync_wait_n call is in progress */
 	PUTARR ("sem", i < nwtab ? *(volatile int *) &wtab[i]->sem : 0);
 	PUTARR ("held", rt_held_by (S.mu, i));
 	o += (size_t) snprintf (buf + o, n - o, " data=[");
